@@ -181,6 +181,24 @@ func (w *world) checkTTLContext(sc *scenario) {
 		}
 	}
 
+	// every successfully built value is stored (the store is attempted by the goroutine that built it)
+	for _, b := range l.builds {
+		if b.getIdx < 0 || b.tok == "" || b.exitStep < 0 {
+			continue
+		}
+
+		attempted := false
+
+		for _, r := range l.be {
+			if r.op == "write" && r.task == b.task && r.val == interface{}(b.tok) {
+				attempted = true
+			}
+		}
+
+		g := sc.gets[b.getIdx]
+		c.Assert(attempted, "built-value-not-stored", "the value %v built for g%d (caller cancelled before=%v deadline=%v) was never written to the backend", b.tok, g.idx, g.cancelBefore, g.deadline)
+	}
+
 	// c: caller's context after the Get.
 	for _, g := range sc.gets {
 		want := foldFor(g)
